@@ -81,6 +81,7 @@ def build_cases(rng, tier):
         inputs = [('p', w, s[:200]) for w, s in zip(ws, scheds)] + [('f', ws[0], [])]
         extra = ["read"] if (be != 'cxx' and i % 2 == 0) else []
         cases.append({'id': "pl%d" % i, 'prog': prog, 'backend': be, 'flex_opts': opts + ["-8"], 'bufsize': bufsize, 'plain': True,
+                      'setint': be == 'nr' and i % 3 == 1,          # yy_set_interactive(1) on the buffer of a pipe
                       'extra_options': extra, 'inputs': inputs, 'seed': r.s, 'text': ''})
     return cases
 
